@@ -74,7 +74,12 @@ let dispatch fn args = match fn, args with
   | "Unfold", [g; o1; o2; n] ->
     let gr = graph_of_string g in
     str_of_bool (simb (nat_of_int (int_of_z (z_of_hex n))) gr (obj_of_string o1) gr (obj_of_string o2))
-  | "ContentDup", [o1; o2] -> str_of_bool (contentStreamDup (obj_of_string o1) (obj_of_string o2))
+  | "ContentDup", [g; cached; nw; observed] ->
+    let r = contentStreamDup (nat_of_int 3000) (graph_of_string g) (obj_of_string cached) (obj_of_string nw) in
+    let m = cmp_set r in
+    let obs = List.filter (fun x -> x <> "") (String.split_on_char ',' observed) in
+    if obs <> [] && List.for_all (fun x -> List.mem x m) obs then "consistent"
+    else "MISMATCH model=" ^ String.concat "," m ^ " observed=" ^ observed
   | "Strip", [s] -> hex_of_bytes (strip (bytes_of_hex s))
   | _ -> failwith ("unknown function " ^ fn)
 let () = main dispatch
